@@ -53,7 +53,7 @@ CLAIMS = {
     "C17": dict(
         text="Verus proves, for every capacity, buffer content and event, the contracts of EventBufferWriter::write, EventBuffer::{next,open,close,with_capacity*} and EventSlot{,Writer}::{write,next,open,close,new*} on the text cut from /repo on each run.",
         note="sequentialised (Arc/Mutex/AtomicBool elided; try_lock on the slot assumed uncontended, try_lock on the buffer may answer WouldBlock); vstd VecDeque specs; __try_fold not under contract; last sentence (sending order through one output): only bounded, stand-in xbcast runs the real EventBroadcaster / BroadcastFuture / TaskSet on one thread - each recipient gets each event once, and a broadcast returns only after all recipients took the event, so consecutive sends arrive in sending order; the sink sender itself (EventSinkSender) is not under contract",
-        ref="DESIGN.md §5 C17", tech=TECH_V + "; bounded executable stand-in (xbcast) for the event broadcast, labelled bounded"),
+        ref="DESIGN.md §5 C17", tech=TECH_V + "; bounded executable stand-ins (xsink: both sink files as they stand, as counterexample generator and fallback; xbcast: the event broadcast), labelled bounded"),
     "C18": dict(
         text="Verus proves that a step to a new time t calls synchronize(t) exactly once after the time write and before Executor::run (ghost run log: the executor is entered with last-synchronised time == t), that OutOfSync is returned exactly when the reported lag exceeds the configured tolerance and then the executor is not entered, that step_until's final jump synchronises on the target, and that SimInit::init synchronises exactly once on the start time before the first executor run (unit sim).",
         note="the clock is only reachable through Simulation (private field); step_until through several times: each new time synchronised exactly once (strictly increasing trace); under concurrent scheduling the monitor pass (simmon) proves that the clock is never synchronised ahead of the published time, hence the times passed to synchronize never decrease",
